@@ -5,6 +5,7 @@ import "verifharness/fn"
 func init() {
 	register(fn.CounterAdapters()...)
 	register(fn.ValidatorAdapters()...)
+	register(fn.SeqObjAdapters()...)
 	commands["fnvec"] = fn.CmdVec
 	commands["fnsweep"] = fn.CmdSweep
 	commands["fnpiece"] = fn.CmdPiece
